@@ -4,3 +4,5 @@
 pub mod codec;
 pub mod field;
 pub mod poly;
+pub mod rescue;
+pub mod merkle;
